@@ -1211,7 +1211,8 @@ def audit(out: OutputBuffer, aconf: AuditConf, sshv: Optional[int] = None, print
     if err is None:
         s.send_kexinit()  # Send the algorithms we support (except we don't since this isn't a real SSH connection).
 
-        packet_type, payload = s.read_packet(sshv)
+        # If we're running against multiple targets, an invalid packet must be returned to the calling worker thread as a connection error for this target only, instead of terminating the whole run.
+        packet_type, payload = s.read_packet(sshv, exit_on_error=(len(aconf.target_list) == 0))
         if packet_type < 0:
             try:
                 if len(payload) > 0:
